@@ -315,13 +315,14 @@ namespace Pistache
 
     bool match_double(double* val, StreamCursor& cursor)
     {
-        // @Todo: strtod does not support a length argument
+        // strtod does not support a length argument: convert a terminated copy of what is left
+        const std::string rest(cursor.offset(), cursor.remaining());
         char* end;
-        *val = strtod(cursor.offset(), &end);
-        if (end == cursor.offset())
+        *val = strtod(rest.c_str(), &end);
+        if (end == rest.c_str())
             return false;
 
-        cursor.advance(static_cast<ptrdiff_t>(end - cursor.offset()));
+        cursor.advance(static_cast<size_t>(end - rest.c_str()));
         return true;
     }
 
